@@ -247,14 +247,22 @@ def run(ctx):
                 return (a != a and b != b) or a == b or abs(a - b) <= 1e-9 * max(1.0, abs(b))
             if ev['logpdf'] != ev['logpdf']:
                 stats['nan_logpdf'] += 1
+            # a negative Poisson rate (a parameter point outside the physical region): log Poisson(n | rate) is undefined there, the
+            # property says nothing about the number reported (numpy gives nan for n > 0 and a finite number for n = 0); the TERMS are
+            # still compared, the sums only where they are defined
+            nm = im['cfg']['nmaindata']
+            undef_main = any(k == 'pois' and v[1] < 0 for k, v in rt[:nm])
+            undef_cons = any(k == 'pois' and v[1] < 0 for k, v in rt[nm:])
+            if undef_main or undef_cons:
+                stats['undefined_rate_points'] = stats.get('undefined_rate_points', 0) + 1
             bad = []
             if why:
                 bad.append('terms: ' + why)
-            if not near(ev['logpdf'], lsum):
+            if not (undef_main or undef_cons) and not near(ev['logpdf'], lsum):
                 bad.append('logpdf %r vs template %r' % (ev['logpdf'], float(lsum)))
-            if not near(ev['main'], lmain):
+            if not undef_main and not near(ev['main'], lmain):
                 bad.append('mainlogpdf %r vs %r' % (ev['main'], float(lmain)))
-            if not near(ev['constraint'], lcons):
+            if not undef_cons and not near(ev['constraint'], lcons):
                 bad.append('constraint_logpdf %r vs %r' % (ev['constraint'], float(lcons)))
             if not near(ev['main'] + ev['constraint'], ev['logpdf']):
                 bad.append('main + constraint %r != full %r' % (ev['main'] + ev['constraint'], ev['logpdf']))
